@@ -38,10 +38,11 @@ def check(run, views, tier):
         rr.r_stop_onlyexit(run, F)
         # the parser accepts every value tag the encoder can announce (Other{tag} carries any tag of the value range)
         rr.r_dispatch(run, F)
+        rr.r_reject(run, F)      # the parser refuses nothing the encoder can produce beyond the reviewed rejections
         # the encoder emits every attribute exactly once: ordered list, then exactly its complement (R-ORDERLIST), groups, end tag
         from . import c09
         saved0 = (run.explanation, run.trusted, run.not_decided)
-        c09.check(run, {cfg: crates}, tier)
+        c09.check(run, {cfg: crates}, tier, with_ops=False)
         run.explanation, run.trusted, run.not_decided = saved0
         run.cfg = cfg
         from . import c08
